@@ -235,7 +235,11 @@ func (r *Run) Violation(key, what string, detail any) {
 	v.Replay = path
 	r.violations = append(r.violations, v)
 	fmt.Printf("VIOLATION property=%s replay=%s\n", r.ID, path)
-	fmt.Printf("  what: %s\n  key: %s\n", printable(what), printable(key))
+	shown := printable(what)
+	if len(shown) > 400 {
+		shown = shown[:400] + "... (full text in the replay file)"
+	}
+	fmt.Printf("  what: %s\n  key: %s\n", shown, printable(key))
 }
 
 // Saturated reports that enough violations were recorded to stop exploring
